@@ -7,11 +7,12 @@ Variable find : nat -> nat -> target.
 Variable codec_ok : N -> bool.
 Variable decodable : N -> nat -> bool.
 Variable handler : nat -> nat -> nat -> hres.
+Variable hmeta : nat -> nat -> nat -> list (nat * nat).
 
-Notation process := (process find codec_ok decodable handler).
-Notation handle_reflected := (handle_reflected codec_ok decodable handler).
-Notation cstep := (cstep find codec_ok decodable handler).
-Notation crun := (crun find codec_ok decodable handler).
+Notation process := (process find codec_ok decodable handler hmeta).
+Notation handle_reflected := (handle_reflected codec_ok decodable handler hmeta).
+Notation cstep := (cstep find codec_ok decodable handler hmeta).
+Notation crun := (crun find codec_ok decodable handler hmeta).
 
 Definition stamped (q : sreq) (r : sresp) : Prop :=
   r_seq r = q_seq q /\ r_path r = q_path q /\ r_meth r = q_meth q /\ r_ser r = q_ser q.
@@ -93,6 +94,33 @@ Proof.
   - unfold handle_reflected. destruct (negb (codec_ok (q_ser q))); [intros H; injection H as <-; split; reflexivity|].
     destruct (negb (decodable (q_ser q) (q_args q))); [intros H; injection H as <-; split; reflexivity|].
     destruct (handler (q_path q) (q_meth q) (q_args q)); intros H; injection H as <-; split; reflexivity.
+Qed.
+
+(* the response metadata a handler sets is carried on success and on failure alike (and never displaces the
+   error text: failures_are_reported holds for every hmeta); a request that never reached its handler carries none *)
+Definition handler_ran (q : sreq) : bool :=
+  match find (q_path q) (q_meth q) with
+  | TRouter => true
+  | TMethod | TFunction => codec_ok (q_ser q) && decodable (q_ser q) (q_args q)
+  | _ => false
+  end.
+
+Theorem response_metadata_is_the_handlers q r :
+  q_hb q = false -> q_oneway q = false -> fst (process q) = [r] ->
+  r_meta r = if handler_ran q then hmeta (q_path q) (q_meth q) (q_args q) else [].
+Proof.
+  intros Hh Ho. unfold process, handler_ran. rewrite Hh.
+  destruct (find (q_path q) (q_meth q)); rewrite ?Ho.
+  - destruct (handler (q_path q) (q_meth q) (q_args q)); [destruct (codec_ok (q_ser q))| |];
+      intros H; injection H as <-; reflexivity.
+  - intros H; injection H as <-; reflexivity.
+  - intros H; injection H as <-; reflexivity.
+  - unfold handle_reflected. destruct (codec_ok (q_ser q)); cbn [negb andb]; [|intros H; injection H as <-; reflexivity].
+    destruct (decodable (q_ser q) (q_args q)); cbn [negb]; [|intros H; injection H as <-; reflexivity].
+    destruct (handler (q_path q) (q_meth q) (q_args q)); intros H; injection H as <-; reflexivity.
+  - unfold handle_reflected. destruct (codec_ok (q_ser q)); cbn [negb andb]; [|intros H; injection H as <-; reflexivity].
+    destruct (decodable (q_ser q) (q_args q)); cbn [negb]; [|intros H; injection H as <-; reflexivity].
+    destruct (handler (q_path q) (q_meth q) (q_args q)); intros H; injection H as <-; reflexivity.
 Qed.
 
 (* ---- connections ---- *)
